@@ -59,6 +59,7 @@ def generate(tp: Tape, tier: str):
     case["opt_resume"] = case["opt"] if tp.coin(3, 4) else tp.choice([dict(kind="off"), dict(kind="default")])
     case["exec_resume"] = H.exec_cfg_from_tape(tp)
     case["rebuild"] = tp.coin(1, 3)
+    case["second_crash"] = tp.randint(1, 6) if tp.coin(1, 3) else 0
     case["crash_points"] = None
     case["allowed_mem"] = tp.choice([200_000_000, 2_000_000, 100_000])
     return case
@@ -187,6 +188,26 @@ def crash_and_resume(case, k, shadow, tape):
                 arrays = rr.arrays
             else:
                 cnt["resumed_from_rebuilt_program"] = 1
+        k2 = case.get("second_crash")
+        if k2:
+            # the resumed run dies as well, after k2 further durable writes; then resume once more
+            n0 = store.sh.n_commits
+
+            def commit_hook2(st, key, value, job):
+                if st.sh.n_commits - n0 >= k2 and not st.sh.down:
+                    st.sh.down = True
+                    sim.emit("CRASH2", k2, key, job)
+
+            store.sh.commit_hook = commit_hook2
+            PR.compute(rr, opt=case.get("opt_resume"), exec_cfg=case.get("exec_resume"), arrays=arrays,
+                       compute_kwargs=dict(resume=True))
+            store.sh.commit_hook = None
+            if store.sh.down:
+                cnt["second_crashes_injected"] = 1
+                store.sh.down = False
+            snap = store.snapshot()
+            n_trace0 = len(store.trace)
+            ev0 = len(sim.events)
         probe = _ProbeCallback(sim, store, snap)
         res2, phase2, exc2 = PR.compute(rr, opt=case.get("opt_resume"), exec_cfg=case.get("exec_resume"),
                                         arrays=arrays, compute_kwargs=dict(resume=True), callbacks_extra=[probe])
@@ -368,10 +389,10 @@ def shrink(case):
     for c in c01.shrink(case):
         c["crash_points"] = None
         yield c
-    for key in ("rebuild",):
+    for key in ("rebuild", "second_crash"):
         if case.get(key):
             c = copy.deepcopy(case)
-            c[key] = False
+            c[key] = 0 if key == "second_crash" else False
             yield c
     if case.get("exec_resume") != dict(kind="single"):
         c = copy.deepcopy(case)
